@@ -267,7 +267,7 @@ PM = "phy::verif"
 h("c16_receive_all_vs_decoder_q", "phy_mod.rs", PM, ["C16"], panic_props=["C16", "C05"], timeout_s=1800, mem_gb=12, weight=3, functions=PHF,
   bounds="ANY buffer content of 0..=7 bytes (up to 7 telegrams), one receive_all_telegrams call; unwind 10",
   obligation="handed-over telegrams == iterated decoder (in order, once each), is_last iff nothing buffered behind, result forwarded iff last flagged, undecodable data discarded entirely, incomplete telegram untouched")
-h("c16_receive_all_sd2_le3_q", "phy_mod.rs", PM, ["C16"], panic_props=["C16", "C05"], timeout_s=1800, mem_gb=12, weight=2, functions=PHF,
+h("c16_receive_all_sd2_le3_q", "phy_mod.rs", PM, ["C16"], panic_props=["C16", "C05"], tier="thorough", timeout_s=3600, mem_gb=12, weight=2, functions=PHF,
   bounds="buffers of 0..=10 bytes of the shape [SC]? + 68 03 03 68 + symbolic rest (the SD2 frame with the non-canonical LE 3, 9 bytes); one receive_all_telegrams call; unwind 13",
   obligation="as c16_receive_all_vs_decoder_q")
 # c16_receive_all_sd2_le11_q (18 bytes, LE 11): stopped without verdict after 25 min / 10 GB on a loaded machine -> not registered (the function stays in phy_mod.rs for a later attempt)
